@@ -162,6 +162,9 @@ def main():
             {'name': 'mirsym', 'path': 'mirsym/', 'serves_properties': sorted(CLAIMED),
              'kind_free_text': 'symbolic executor for rustc textual MIR written for this task (Python), byte-vector strings, '
                                'z3 in-process, cvc5 batch re-check, contract models for std/FS/process/scheduler'},
+            {'name': 'kani', 'path': 'kani/', 'serves_properties': ['C12', 'C15', 'C18'],
+             'kind_free_text': 'Kani 0.68 / CBMC harnesses on the compiled leaf functions (second lowering, real std): line-ending detection, '
+                               'directive name table, detect_from == G1 (<=6 bytes), detect_from panic freedom (<=5 bytes)'},
             {'name': 'native-replay', 'path': 'replay/', 'serves_properties': sorted(CLAIMED),
              'kind_free_text': 'Rust helper linking the real txtpp (feature verif) to replay solver counterexamples'},
         ],
